@@ -81,10 +81,13 @@ def loopsCall (s : Sig) (c : Call) : Call :=
 def evalChain (s : Sig) (body : PDict → Res Val) : List (Cls × PDict) → Call → Res Val
   | [], c => applyFn s body c
   | (.tryValue, p) :: rest, c =>
-      -- try_value.wrapped with repeat = 0, return_value = True: `except Exception: return copy(self.value)`
+      -- try_value.wrapped (_decorators.py:226-247): `repeat` failed attempts are swallowed, then with
+      -- `return_value` the last attempt's exception is replaced by `copy(self.value)`, without it it propagates
       match evalChain s body rest c with
       | .ok v => .ok v
-      | .error _ => .ok ((p.lookup "value").getD (.cell .none))
+      | .error e =>
+        if p.lookup "return_value" = some (.cell (.bool false)) then .error e
+        else .ok ((p.lookup "value").getD (.cell .none))
   | (.tryBack, _) :: rest, c =>
       match evalChain s body rest c with
       | .ok v => .ok v
